@@ -222,6 +222,16 @@ theorem consec_empty_path (steps : List Rat) (δ : Rat) (hδ : 0 < δ) (h : pair
         have := h3 m (by simpa using hm) (by omega)
         simpa using this
 
+/-- evo's two consecutive selectors differ only in the first segment: for `δ > 0` the path selector
+returns the greedy chain started at pose 0 *without* its first pair `(0, first pose reaching δ)` -/
+theorem pathConsec_eq_angleConsec_tail (l : List Rat) (δ : Rat) (hδ : 0 < δ) :
+    pairsByPathConsec l δ = (pairsByAngleConsec l δ).tail := by
+  unfold pairsByPathConsec pairsByAngleConsec angleEnds
+  rw [pathIds_eq, if_neg (not_le.mpr hδ)]
+  cases reachGo δ l 1 0 with
+  | nil => simp [chainPairs]
+  | cons e r => simp [chainPairs]
+
 /-! ## delta in meters, all-pairs mode -/
 
 /-- a selected pair lies within the tolerance: `|path(i..j) − δ| ≤ tol` -/
